@@ -1,4 +1,5 @@
 import Driver.Json
+import ChipFiring.Model.Algos
 open Lean CF
 namespace Drv
 
@@ -28,8 +29,190 @@ def opEwd (j : Json) : M Json := do
         ("_rounds", jOpt (fun (x : Reduced n) => jNat x.rounds) red),
         ("trace", if viz then Json.arr (r.tr.map fun (v : Vec Int n) => jVec v.get).toArray else Json.null),
         ("arg", match red with | some x => jVec x.D | none => jVec Dv.deg),
+        -- oracle for C02: the q-reduced representative for every vertex of minimum degree
+        ("_reduced_by_sink", Json.arr (((List.finRange n).filter fun q => allF fun v => decide (Dv.deg q ≤ Dv.deg v)).map fun q =>
+            match reduceLoop G q (debtOrder G hint q) bigFuel bigFuel Dv.deg [] 0 with
+            | some x => Json.arr #[jNat q.1, jVec x.D]
+            | none => Json.null).toArray),
         ("argtotal", jInt Dv.total),
         ("graph", jGraph G)]
 
+
+def jOptB : Option Bool → Json
+  | none => timeout
+  | some b => Json.bool b
+
+def graph2Of (j : Json) (n : Nat) (G : Graph n) : M (Graph n × Bool) := do
+  match (j.getObjVal? "edges2").toOption with
+  | some (Json.arr es) =>
+    let es ← edgesOf es
+    match Graph.new n false es with
+    | .ok H => pure (H, graphEqB G H)
+    | .error _ => pure (G, false)
+  | _ => pure (G, true)
+
+def opLinEquiv (j : Json) : M Json := do
+  let n ← getNat j "n"
+  match ← graphOf j n with
+  | .error _ => pure err
+  | .ok G =>
+    let D1 := Divisor.ofFn (← vecOf n (← getInts j "D1"))
+    let D2 := Divisor.ofFn (← vecOf n (← getInts j "D2"))
+    let (_, same) ← graph2Of j n G
+    pure <| Json.mkObj [("equiv", jOptB (linEquiv G bigFuel same D1 D2)),
+      ("D1_after", jVec D1.deg), ("D2_after", jVec D2.deg), ("graph", jGraph G)]
+
+/-- the thin API wrappers: is_winnable, q_reduction, is_q_reduced (each on a fresh copy) -/
+def opApi (j : Json) : M Json := do
+  let n ← getNat j "n"
+  match ← graphOf j n with
+  | .error _ => pure err
+  | .ok G =>
+    let deg ← vecOf n (← getInts j "deg")
+    let Dv := Divisor.ofFn deg
+    let plain := ewd G (fun _ => []) bigFuel Dv false
+    let opt := ewd G (fun _ => []) bigFuel Dv true
+    let redD : Option (Fin n → Int) := match plain with
+      | some (.ok r) => r.red.map (·.D)
+      | _ => none
+    let optD : Option (Fin n → Int) := match opt with
+      | some (.ok r) => r.red.map (·.D)
+      | _ => none
+    pure <| Json.mkObj [
+      ("is_winnable", match opt with | some (.ok r) => Json.bool r.verdict | some (.error _) => err | none => timeout),
+      ("is_winnable_arg", match optD with | some d => jVec d | none => jVec deg),
+      ("q_reduction", match redD with | some d => jVec d | none => err),
+      ("q_reduction_arg", match redD with | some d => jVec d | none => jVec deg),
+      -- the code compares the in-place result with its own argument: always True
+      ("is_q_reduced", match plain with | some (.ok _) => Json.bool true | some (.error _) => err | none => timeout),
+      ("_spec_is_q_reduced", match redD with | some d => Json.bool (allF fun v => decide (d v = deg v)) | none => Json.null),
+      ("argtotal", jInt Dv.total), ("graph", jGraph G)]
+
+def opDhar (j : Json) : M Json := do
+  let n ← getNat j "n"
+  match ← graphOf j n with
+  | .error _ => pure err
+  | .ok G =>
+    let deg ← vecOf n (← getInts j "deg")
+    match ref? n (← getNat j "q") with
+    | none => pure err
+    | some q =>
+      let hint ← hintOf j n
+      let order := debtOrder G hint q
+      match sendDebt G order bigFuel deg with
+      | none => pure timeout
+      | some s =>
+        let st := burn G q s.D
+        let ub := unburnt st
+        let fired := fireSet G ub s.D
+        pure <| Json.mkObj [
+          ("after_debt", jVec s.D),
+          ("borrows", if getBoolD j "viz" false then Json.arr (s.tr.reverse.map fun (v : Vec Int n) => jVec v.get).toArray else Json.null),
+          ("unburnt", jSet ub),
+          ("orient", jDir G st),
+          ("indeg", jVec (st.indeg G)), ("outdeg", jVec (st.outdeg G)),
+          ("after_fire", jVec fired),
+          ("superstable", Json.bool (isSuperstable G q s.D)),
+          ("argtotal", jInt (sumZ deg)), ("graph", jGraph G)]
+
+def opRank (j : Json) : M Json := do
+  let n ← getNat j "n"
+  match ← graphOf j n with
+  | .error _ => pure err
+  | .ok G =>
+    let deg ← vecOf n (← getInts j "deg")
+    let Dv := Divisor.ofFn deg
+    let opt := getBoolD j "opt" false
+    let red : Option (Fin n → Int) := match ewd G (fun _ => []) bigFuel Dv false with
+      | some (.ok r) => r.red.map (·.D)
+      | _ => none
+    pure <| Json.mkObj [
+      ("rank", match rank G bigFuel Dv opt with | none => timeout | some (.error _) => err | some (.ok r) => jInt r),
+      ("arg", match red with | some d => jVec d | none => jVec deg),
+      ("argtotal", jInt Dv.total), ("graph", jGraph G)]
+
+def jPlacement {n : Nat} (P : Fin n → Int) : Json := jVec P
+
+def opGonality (j : Json) : M Json := do
+  let n ← getNat j "n"
+  match ← graphOf j n with
+  | .error _ => pure err
+  | .ok G =>
+    let maxG : Int := match (j.getObjVal? "max").toOption with
+      | some v => (v.getInt?.toOption).getD n
+      | none => n
+    let strat := getBoolD j "strat" true
+    match computeGonality G bigFuel maxG strat with
+    | none => pure timeout
+    | some (g, l) => pure <| Json.mkObj [("gonality", jInt g), ("strategies", Json.arr (l.map jPlacement).toArray), ("graph", jGraph G)]
+
+def opPlay (j : Json) : M Json := do
+  let n ← getNat j "n"
+  match ← graphOf j n with
+  | .error _ => pure err
+  | .ok G =>
+    let P ← vecOf n (← getInts j "P")
+    let nchips ← getInt j "nchips"
+    let v ← getNat j "v"
+    let Pv := Divisor.ofFn P
+    let game : Json := if Pv.total ≠ nchips then err else
+      match ref? n v with
+      | none => err
+      | some v => jOptB (playGame G bigFuel P v)
+    let test : Json := if Pv.total ≠ nchips then err else
+      match losingVertices G bigFuel P with
+      | none => timeout
+      | some l => Json.arr #[Json.bool l.isEmpty, jFin l]
+    pure <| Json.mkObj [("game", game), ("test", test), ("P_after", jVec P), ("graph", jGraph G)]
+
+def opDharStrategy (j : Json) : M Json := do
+  let n ← getNat j "n"
+  match ← graphOf j n with
+  | .error _ => pure err
+  | .ok G =>
+    match ref? n (← getNat j "q") with
+    | none => pure err
+    | some q =>
+      let base ← vecOf n (← getInts j "base")
+      -- names that are not vertices are silently ignored by the code
+      let strategy := (← getNats j "strategy").filterMap (ref? n)
+      pure <| Json.mkObj [("wins", jOptB (dharTestStrategy G bigFuel q base strategy)), ("base_after", jVec base)]
+
+def opEnhancedDhar (j : Json) : M Json := do
+  let n ← getNat j "n"
+  match ← graphOf j n with
+  | .error _ => pure err
+  | .ok G =>
+    match ref? n (← getNat j "q") with
+    | none => pure err
+    | some q =>
+      let maxG : Int := match (j.getObjVal? "max").toOption with
+        | some v => (v.getInt?.toOption).getD ((n : Int) - 1)
+        | none => (n : Int) - 1
+      let maxG := if maxG < 0 then 0 else maxG
+      let vt := match (j.getObjVal? "vt").toOption with
+        | some (Json.arr a) => (a.toList.filterMap fun x => x.getNat?.toOption).filterMap (ref? n)
+        | _ => vtilde q
+      match enhancedDhar G bigFuel q vt maxG.toNat with
+      | none => pure timeout
+      | some (k, ms) =>
+        let canon := (ms.map fun s => (s.map (·.1)).mergeSort (· ≤ ·))
+        let sorted := canon.mergeSort (fun a b => a.length < b.length || (a.length == b.length && decide (a ≤ b)))
+        pure <| Json.mkObj [("k", jNat k), ("strategies", Json.arr (sorted.map jNats).toArray)]
+
+def opGreedy (j : Json) : M Json := do
+  let n ← getNat j "n"
+  match ← graphOf j n with
+  | .error _ => pure err
+  | .ok G =>
+    let deg ← vecOf n (← getInts j "deg")
+    let vorder := match (j.getObjVal? "vorder").toOption with
+      | some (Json.arr a) => (a.toList.filterMap fun x => x.getNat?.toOption).filterMap (ref? n)
+      | _ => List.finRange n
+    let (ok, D, s) := greedy G vorder deg
+    pure <| Json.mkObj [("success", Json.bool ok), ("script", if ok then jVec s.get else Json.null),
+      ("final", if ok then jVec D.get else Json.null),
+      ("certificate", if ok then Json.bool (allF fun v => decide (lapApply G deg s.get v = D.get v) && decide (0 ≤ D.get v)) else Json.null),
+      ("arg", jVec deg), ("graph", jGraph G)]
 
 end Drv
